@@ -10,8 +10,10 @@
    on every run.
    fixed_name_races: with one fixed temporary name and two DIFFERENT targets (different flocks) the schedule
    of the seeded race makes a process fail and deletes the destination; fixed_name_same_target: the same
-   schedule with both processes on the SAME target is harmless (the flock keeps the second one out) - mutual
-   exclusion per target is not enough, the temporary names must not be shared. *)
+   schedule with both processes on the SAME target is harmless (the flock keeps the second one out);
+   fixed_one_target_safe: with all processes on ONE target even the fixed name is safe, for every number of
+   processes, size and schedule (invariant FInv) - mutual exclusion per target is enough within a target and
+   not between targets, where the temporary names must not be shared. *)
 From Coq Require Import String Lia.
 From PlzV Require Import Base.Harness Model.C31_TempFile.
 From PlzV Require Gen.C34Copy.
@@ -211,6 +213,171 @@ Lemma fixed_name_same_target :
   let st := trun TFixed 3 2 (fun _ => 0) (race_sched 3 ++ repeat 1 6) tinit in
   tsafe 3 2 st = true /\ all_done 2 st = true /\ dest_whole 3 st = true.
 Proof. vm_compute. repeat split; reflexivity. Qed.
+
+(* ------------------------------------------------------------------------------------------ *)
+(* ONE target, a fixed temporary name: the flock is enough (fixed_one_target_safe, by invariant FInv: at most one
+   process is between open and rename, the fixed name exists only then and refers to that process's inode) *)
+
+Definition Fpc (sz : nat) (st : tstate) (i : nat) : Prop :=
+  match t_pc st i with
+  | PStart => True
+  | PWriting x k => x = i /\ t_dir st EFixed = Some i /\ t_data st i = Some k /\ k <= sz
+  | PClosed x => x = i /\ t_dir st EFixed = Some i /\ t_data st i = Some sz
+  | PDone => t_data st i = Some sz
+  | PFailed => False
+  end.
+
+Definition FInv (sz n : nat) (st : tstate) : Prop :=
+  (forall i, n <= i -> t_pc st i = PStart)
+  /\ (forall i j, holds_lock (t_pc st i) = true -> holds_lock (t_pc st j) = true -> i = j)
+  /\ ((forall i, holds_lock (t_pc st i) = false) -> t_dir st EFixed = None)
+  /\ (forall i, Fpc sz st i)
+  /\ Idest st.
+
+Lemma FInv_init sz n : FInv sz n tinit.
+Proof.
+  split; [|split; [|split; [|split; [|split]]]].
+  - intros i _. reflexivity.
+  - intros i j Hi. discriminate.
+  - intros _. reflexivity.
+  - intros i. exact I.
+  - intros x Hx. discriminate.
+  - intros i Hi. discriminate.
+Qed.
+
+(* process i moves to p', nobody else holds the lock *)
+Lemma FInv_update sz n st i p' dir' data' :
+  i < n -> FInv sz n st ->
+  (forall j, j <> i -> holds_lock (t_pc st j) = false) ->
+  (forall j, j <> i -> data' j = t_data st j) ->
+  match p' with
+  | PStart => False
+  | PWriting x k => x = i /\ dir' EFixed = Some i /\ data' i = Some k /\ k <= sz /\ dir' ETo = t_dir st ETo
+  | PClosed x => x = i /\ dir' EFixed = Some i /\ data' i = Some sz /\ dir' ETo = t_dir st ETo
+  | PDone => dir' EFixed = None /\ data' i = Some sz /\ dir' ETo = Some i
+  | PFailed => False
+  end ->
+  t_pc st i <> PDone ->
+  FInv sz n (mkT dir' data' (upd_at (t_pc st) i p')).
+Proof.
+  intros Hi (H1 & H2 & H3 & H4 & H5) Hoth Hdat Hp Hnd.
+  assert (Hpc : forall j, j <> i -> upd_at (t_pc st) i p' j = t_pc st j) by (intros j Hj; apply upd_at_other; exact Hj).
+  split; [|split; [|split; [|split]]]; cbn [t_pc t_dir t_data].
+  - intros j Hj. rewrite Hpc by lia. apply H1. exact Hj.
+  - intros a b Ha Hb.
+    destruct (Nat.eq_dec a i) as [->|Hai]; [|rewrite Hpc in Ha by exact Hai; rewrite (Hoth a Hai) in Ha; discriminate].
+    destruct (Nat.eq_dec b i) as [->|Hbi]; [reflexivity|rewrite Hpc in Hb by exact Hbi; rewrite (Hoth b Hbi) in Hb; discriminate].
+  - intros Hnone. specialize (Hnone i). rewrite upd_at_same in Hnone.
+    destruct p'; try contradiction; try discriminate. exact (proj1 Hp).
+  - intros j. unfold Fpc. cbn [t_pc t_dir t_data]. destruct (Nat.eq_dec j i) as [->|Hne].
+    + rewrite upd_at_same. destruct p'; try contradiction.
+      * destruct Hp as (A & B & C & D & _). repeat split; assumption.
+      * destruct Hp as (A & B & C & _). repeat split; assumption.
+      * exact (proj1 (proj2 Hp)).
+    + rewrite Hpc by exact Hne. pose proof (H4 j) as Hj. unfold Fpc in Hj. pose proof (Hoth j Hne) as Hh.
+      destruct (t_pc st j); try discriminate; try exact I; try contradiction.
+      rewrite (Hdat j Hne). exact Hj.
+  - destruct H5 as [HB HC]. split; cbn [t_pc t_dir].
+    + intros y Hy. destruct p'; try contradiction.
+      * destruct Hp as (_ & _ & _ & _ & E). rewrite E in Hy. pose proof (HB y Hy) as Hd.
+        destruct (Nat.eq_dec y i) as [->|Hne]; [contradiction|]. rewrite Hpc by exact Hne. exact Hd.
+      * destruct Hp as (_ & _ & _ & E). rewrite E in Hy. pose proof (HB y Hy) as Hd.
+        destruct (Nat.eq_dec y i) as [->|Hne]; [contradiction|]. rewrite Hpc by exact Hne. exact Hd.
+      * destruct Hp as (_ & _ & E). rewrite E in Hy. injection Hy as <-. apply upd_at_same.
+    + intros j Hj. destruct p'; try contradiction.
+      * destruct Hp as (_ & _ & _ & _ & E). rewrite E.
+        destruct (Nat.eq_dec j i) as [->|Hne]; [rewrite upd_at_same in Hj; discriminate|]. rewrite Hpc in Hj by exact Hne. exact (HC j Hj).
+      * destruct Hp as (_ & _ & _ & E). rewrite E.
+        destruct (Nat.eq_dec j i) as [->|Hne]; [rewrite upd_at_same in Hj; discriminate|]. rewrite Hpc in Hj by exact Hne. exact (HC j Hj).
+      * destruct Hp as (_ & _ & E). rewrite E. discriminate.
+Qed.
+
+Lemma existsb_false_in {A} (f : A -> bool) l : existsb f l = false -> forall x, In x l -> f x = false.
+Proof.
+  induction l as [|a l IH]; intros He x Hin; [destruct Hin|]. cbn in He. apply orb_false_iff in He as [Ha Hl].
+  destruct Hin as [<-|Hin]; [exact Ha|exact (IH Hl x Hin)].
+Qed.
+
+Lemma tblocked_false n tg st i : tblocked n tg st i = false ->
+  forall j, j < n -> j <> i -> tg j = tg i -> holds_lock (t_pc st j) = false.
+Proof.
+  intros Hb j Hj Hne Htg. unfold tblocked in Hb.
+  assert (Hin : In j (seq 0 n)) by (apply in_seq; lia).
+  pose proof (existsb_false_in _ _ Hb j Hin) as Hf. cbn beta in Hf.
+  destruct (Nat.eqb_spec j i) as [->|_]; [contradiction|]. rewrite Htg, Nat.eqb_refl in Hf. cbn [negb andb] in Hf. exact Hf.
+Qed.
+
+Lemma FInv_step sz n tg st i st' : (forall a b, tg a = tg b) ->
+  FInv sz n st -> tstep TFixed sz n tg st i = Some st' -> FInv sz n st'.
+Proof.
+  intros Htg HI Hst. pose proof HI as (H1 & H2 & H3 & H4 & H5).
+  cbv beta iota zeta delta [tstep tname] in Hst.
+  destruct (Nat.ltb_spec i n) as [Hi|]; [|discriminate].
+  pose proof (H4 i) as Hpi. unfold Fpc in Hpi. revert Hpi Hst.
+  destruct (t_pc st i) as [|x k|x| |] eqn:Epc; intros Hpi Hst.
+  - destruct (tblocked n tg st i) eqn:Eb; [discriminate|].
+    assert (Hoth : forall j, j <> i -> holds_lock (t_pc st j) = false).
+    { intros j Hne. destruct (Nat.lt_ge_cases j n) as [Hj|Hj].
+      - exact (tblocked_false n tg st i Eb j Hj Hne (Htg j i)).
+      - rewrite (H1 j Hj). reflexivity. }
+    assert (Hfree : t_dir st EFixed = None).
+    { apply H3. intros j. destruct (Nat.eq_dec j i) as [->|Hne]; [rewrite Epc; reflexivity|exact (Hoth j Hne)]. }
+    rewrite Hfree in Hst. injection Hst as <-.
+    apply (FInv_update sz n st i (PWriting i 0)); try assumption.
+    + intros j Hne. apply upd_at_other. exact Hne.
+    + split; [reflexivity|]. split; [apply upd_dir_same|]. split; [apply upd_at_same|]. split; [lia|]. apply upd_dir_other; reflexivity.
+    + rewrite Epc. discriminate.
+  - destruct Hpi as (Hx & Hd & Hdat & Hk). subst x.
+    assert (Hoth : forall j, j <> i -> holds_lock (t_pc st j) = false).
+    { intros j Hne. destruct (holds_lock (t_pc st j)) eqn:Eh; [|reflexivity]. exfalso. apply Hne. apply H2; [exact Eh|rewrite Epc; reflexivity]. }
+    destruct (Nat.ltb_spec k sz) as [Hlt|Hge].
+    + rewrite Hdat, write_chunk_next in Hst. injection Hst as <-.
+      apply (FInv_update sz n st i (PWriting i (S k))); try assumption.
+      * intros j Hne. apply upd_at_other. exact Hne.
+      * split; [reflexivity|]. split; [exact Hd|]. split; [apply upd_at_same|]. split; [lia|reflexivity].
+      * rewrite Epc. discriminate.
+    + rewrite Hd in Hst. injection Hst as <-. assert (Hks : k = sz) by lia. subst k.
+      apply (FInv_update sz n st i (PClosed i)); try assumption.
+      * intros j Hne. reflexivity.
+      * split; [reflexivity|]. split; [exact Hd|]. split; [exact Hdat|reflexivity].
+      * rewrite Epc. discriminate.
+  - destruct Hpi as (Hx & Hd & Hdat). subst x.
+    assert (Hoth : forall j, j <> i -> holds_lock (t_pc st j) = false).
+    { intros j Hne. destruct (holds_lock (t_pc st j)) eqn:Eh; [|reflexivity]. exfalso. apply Hne. apply H2; [exact Eh|rewrite Epc; reflexivity]. }
+    rewrite Hd in Hst. injection Hst as <-.
+    apply (FInv_update sz n st i PDone); try assumption.
+    + intros j Hne. reflexivity.
+    + split; [apply upd_dir_same|]. split; [exact Hdat|]. rewrite upd_dir_other by reflexivity. apply upd_dir_same.
+    + rewrite Epc. discriminate.
+  - discriminate.
+  - discriminate.
+Qed.
+
+Theorem fixed_one_target_inv sz n tg sched : (forall a b, tg a = tg b) ->
+  forall st, FInv sz n st -> FInv sz n (trun TFixed sz n tg sched st).
+Proof.
+  intros Htg. induction sched as [|i sched IH]; intros st HI; [exact HI|]. cbn. apply IH. unfold tapply.
+  destruct (tstep TFixed sz n tg st i) as [st'|] eqn:E; [exact (FInv_step _ _ _ _ _ _ Htg HI E)|exact HI].
+Qed.
+
+(* all processes on ONE target: whatever the temporary file is called, no process fails and the destination is
+   never partial, for every number of processes, size and schedule *)
+Theorem fixed_one_target_safe sz n tg sched : (forall a b, tg a = tg b) ->
+  let st := trun TFixed sz n tg sched tinit in
+  (forall i, t_pc st i <> PFailed)
+  /\ (forall x, t_dir st ETo = Some x -> t_data st x = Some sz)
+  /\ (forall i, t_pc st i = PDone -> exists x, t_dir st ETo = Some x /\ t_data st x = Some sz).
+Proof.
+  intros Htg st. destruct (fixed_one_target_inv sz n tg sched Htg tinit (FInv_init sz n)) as (_ & _ & _ & H4 & HB & HC).
+  fold st in H4, HB, HC.
+  assert (Hwhole : forall x, t_dir st ETo = Some x -> t_data st x = Some sz).
+  { intros x Hx. pose proof (H4 x) as Hi. unfold Fpc in Hi. rewrite (HB x Hx) in Hi. exact Hi. }
+  split; [|split].
+  - intros i Hf. pose proof (H4 i) as Hi. unfold Fpc in Hi. rewrite Hf in Hi. exact Hi.
+  - exact Hwhole.
+  - intros i Hd. destruct (t_dir st ETo) as [x|] eqn:Ex; [|exfalso; exact (HC i Hd eq_refl)].
+    exists x. split; [reflexivity|]. apply Hwhole. reflexivity.
+Qed.
 
 (* non-vacuity: under the policy of the source the racing schedule does run both copies to the end, the
    second one over the first one's result, and in between both were writing at the same time *)
